@@ -51,7 +51,9 @@ StepsOf(c) ==
        \cup (IF Thin THEN {} ELSE {[op |-> "close", c |-> c]})
   ELSE IF conn[c].ph = "auth" THEN {[op |-> "loginend", c |-> c, id |-> NextId]}
   ELSE IF conn[c].ph = "closing" THEN {[op |-> "closeend", c |-> c]}
+  ELSE IF conn[c].ph = "in" /\ conn[c].away THEN {[op |-> "wake", c |-> c], [op |-> "close", c |-> c]}
   ELSE IF conn[c].ph = "in" THEN
+       (IF conn[c].ready THEN {[op |-> "goneidle", c |-> c]} ELSE {}) \cup
        (IF ~conn[c].ready
           THEN {[op |-> "agreed", c |-> c, name |-> n, icon |-> 2, opts |-> o, auto |-> <<33>>] : n \in {A, B}, o \in IF Thin THEN {0, 7} ELSE {0, 1, 2, 4}}
           ELSE {[op |-> "setinfo", c |-> c, name |-> n, icon |-> 3, opts |-> o, auto |-> <<34>>] : n \in IF Thin THEN {B} ELSE {A, B}, o \in {-1, 0, 5}}
@@ -84,16 +86,18 @@ EnabledSteps == {s \in GlobalSteps \cup UNION {StepsOf(c) : c \in Conns} : s.op 
 AllSteps == IF EnabledSteps = {} THEN {[op |-> "idle"]} ELSE EnabledSteps   \* keeps random walks going to GenDepth
 
 (* the roster a client maintains *)
-RECURSIVE Fold(_, _)
-Fold(v, sq) ==
+RECURSIVE Fold(_, _, _)
+Fold(v, sq, lister) ==
   IF sq = <<>> THEN v
   ELSE LET m == Head(sq)
            cur == v[m.to]
-           nxt == IF ~cur.on THEN cur
+           nxt == IF m.rep = 1 /\ m.err = 0 /\ m.to = lister
+                    THEN [on |-> TRUE, s |-> {m.users[i] : i \in DOMAIN m.users}]   \* a fetched user list
+                  ELSE IF ~cur.on THEN cur
                   ELSE IF m.t = 301 THEN [cur EXCEPT !.s = {r \in @ : r.uid # m.uid} \cup {[uid |-> m.uid, name |-> m.name, icon |-> m.icon, flags |-> m.flags]}]
                   ELSE IF m.t = 302 THEN [cur EXCEPT !.s = {r \in @ : r.uid # m.uid}]
                   ELSE cur
-       IN Fold([v EXCEPT ![m.to] = nxt], Tail(sq))
+       IN Fold([v EXCEPT ![m.to] = nxt], Tail(sq), lister)
 
 Range(sq) == {sq[i] : i \in DOMAIN sq}
 
@@ -101,8 +105,7 @@ Step(s) ==
   /\ Apply(s)
   /\ ctr' = IF s.op \in {"login", "loginend"} /\ conn'[s.c].ph = "in" THEN NextCtr
             ELSE IF s.op = "churn" THEN ctr + s.n ELSE ctr
-  /\ view' = LET v1 == Fold(view, out')
-             IN IF s.op = "userlist" THEN [v1 EXCEPT ![s.c] = [on |-> TRUE, s |-> Range(out'[1].users)]] ELSE v1
+  /\ view' = Fold(view, out', IF s.op \in {"userlist", "wake"} THEN s.c ELSE 0)   \* deliveries applied in order
   /\ hist' = Append(hist, s)
 
 Next == \E s \in AllSteps : Step(s)
